@@ -79,6 +79,36 @@ class Ctx:
         return fn
 
 
+def import_rules(ctx, modname, rules):
+    """Evaluate another property's rule set on the same program and adopt the obligations of the named rules: they are
+    necessary conditions of this property as well (e.g. a record that can overrun its slot breaks the slot rule *and*
+    the map semantics).  Keys become <this property>/<rule>/<instance>."""
+    import importlib
+    mod = importlib.import_module("rules." + modname)
+    cache = getattr(ctx.prog, "_rule_cache", None)
+    if cache is None:
+        cache = ctx.prog._rule_cache = {}
+    if modname not in cache:
+        sub = Ctx(modname.upper(), ctx.prog, ctx.config, ctx.tier)
+        try:
+            getattr(mod, "_check_own", mod.check)(sub)      # the other property's own rules only (no transitive imports)
+        except AnchorError as e:
+            sub.fail("anchor", "unresolved", "ANCHOR-UNRESOLVED: %s" % e)
+        cache[modname] = sub
+    sub = cache[modname]
+    n = 0
+    for o in sub.obligations:
+        if o["rule"] in rules:
+            ctx.obligations.append(dict(o, detail=(o["detail"] or "") if o["status"] == "holds" else o["detail"]))
+            n += 1
+    for v in sub.violations:
+        if v["rule"] in rules:
+            ctx.violations.append(dict(v, key="%s/%s/%s" % (ctx.prop, v["rule"], v["instance"])))
+    ctx.fns_analysed |= sub.fns_analysed
+    ctx.note("adopted %d obligations of rules %s from the %s rule set" % (n, sorted(rules), modname.upper()))
+    return n
+
+
 def load_known():
     if not os.path.exists(KNOWN):
         return {"findings": [], "fixed": []}
